@@ -50,6 +50,17 @@ def run(ctx):
                 lons = [lon, 1.0, 4.0]                        # any longitude is this pole
             else:
                 lons = [lon]
+                # a point on one of the meridians that bound the level-1 quadrants (0, pi/2, ...): the same point written with
+                # the last bit of its longitude either way, and - on the prime meridian - as the tiny negative residue of a
+                # subtraction that should have given zero; all of them are this boundary point to rounding
+                kq = round(lon / (np.pi / 2))
+                if abs(lon - kq * np.pi / 2) < 1e-12:
+                    base_l = kq * np.pi / 2
+                    lons += [float(np.nextafter(base_l, -np.inf)), float(np.nextafter(base_l, np.inf))]
+                    if kq == 0:
+                        lons += [-5e-324, -1e-17, 1e-17, -1e-300]
+                    if kq == 4:
+                        lons += [0.0, -1e-17]
             base = None
             for lon0 in lons:
                 for sh in shifts:
@@ -86,8 +97,10 @@ def run(ctx):
         if tuple(t0.pos) != (0, 0, 0):
             ctx.violation("C12:tile_for_point:depth0", "depth 0 lookup returns %s" % (tuple(t0.pos),), {"cs": csname})
         # ---- (b) interior points far deeper: closed form (the unique cell holding a point that lies on no cell boundary)
-        for _ in range(40 if q else 600):
-            dmax = ctx.rng.randint(5, 10)
+        for it_ in range(40 if q else 600):
+            # one lookup in three goes far deeper (to depth 26), where tile edges are of the order of 1e-7 rad and any absolute
+            # tolerance in the containment arithmetic would swallow whole tiles
+            dmax = ctx.rng.randint(5, 10) if it_ % 3 else ctx.rng.randint(18, 26)
             RR = dmax + 3
             i, j = 2 * ctx.rng.randrange(2 ** (RR - 1)) + 1, 2 * ctx.rng.randrange(2 ** (RR - 1)) + 1
             v = psi.vec(i, j, RR)
